@@ -6,7 +6,7 @@ import GqlModel
 open Gql
 
 /-- every op receives the words after the op name -/
-def allOps : List (String × (List String → String)) := Ops.lexOps ++ Ops.wireOps
+def allOps : List (String × (List String → String)) := Ops.lexOps ++ Ops.wireOps ++ Ops.validateOps
 
 def handle (line : String) : String :=
   match (line.trimAscii.toString.splitOn " ").filter (· ≠ "") with
